@@ -1,0 +1,98 @@
+//go:build verif
+
+package starlark
+
+// Observation hooks for the external verification harness (build tag verif).
+// They only read interpreter state; nothing in the interpreter calls them.
+
+import "fmt"
+
+// VerifCheck reports a violated structural invariant of the dict's hash table.
+func (d *Dict) VerifCheck() error { return d.ht.verifCheck() }
+
+// VerifCheck reports a violated structural invariant of the set's hash table.
+func (s *Set) VerifCheck() error { return s.ht.verifCheck() }
+
+// VerifIterCount returns the number of active iterators recorded on a
+// list, dict or set, and whether the value is frozen.
+func VerifIterCount(v Value) (n uint32, frozen bool, ok bool) {
+	switch v := v.(type) {
+	case *List:
+		return v.itercount, v.frozen, true
+	case *Dict:
+		return v.ht.itercount, v.ht.frozen, true
+	case *Set:
+		return v.ht.itercount, v.ht.frozen, true
+	}
+	return 0, false, false
+}
+
+func (ht *hashtable) verifCheck() error {
+	if ht.table == nil {
+		if ht.len != 0 || ht.head != nil {
+			return fmt.Errorf("nil table but len=%d head=%p", ht.len, ht.head)
+		}
+		return nil
+	}
+	if n := len(ht.table); n&(n-1) != 0 {
+		return fmt.Errorf("table size %d is not a power of two", n)
+	}
+	// Every in-use slot: hash non-zero, in the chain its hash selects.
+	live := map[*entry]bool{}
+	for j := range ht.table {
+		for p := &ht.table[j]; p != nil; p = p.next {
+			for i := range p.entries {
+				e := &p.entries[i]
+				if e.hash == 0 {
+					if e.key != nil || e.value != nil || e.next != nil || e.prevLink != nil {
+						return fmt.Errorf("free slot %d/%d not cleared", j, i)
+					}
+					continue
+				}
+				if e.key == nil {
+					return fmt.Errorf("live slot %d/%d has nil key", j, i)
+				}
+				if int(e.hash&uint32(len(ht.table)-1)) != j {
+					return fmt.Errorf("entry with hash %#x in chain %d of %d", e.hash, j, len(ht.table))
+				}
+				h, err := e.key.Hash()
+				if err == nil {
+					if h == 0 {
+						h = 1
+					}
+					if h != e.hash {
+						return fmt.Errorf("stored hash %#x != key hash %#x", e.hash, h)
+					}
+				}
+				live[e] = true
+			}
+		}
+	}
+	if len(live) != int(ht.len) {
+		return fmt.Errorf("len=%d but %d live slots", ht.len, len(live))
+	}
+	// The order list visits each live entry exactly once with consistent links.
+	link := &ht.head
+	seen := 0
+	for e := ht.head; e != nil; e = e.next {
+		if !live[e] {
+			return fmt.Errorf("order list reaches a slot that is not live (position %d)", seen)
+		}
+		if e.prevLink != link {
+			return fmt.Errorf("prevLink of entry %d does not point at the link to it", seen)
+		}
+		delete(live, e)
+		link = &e.next
+		seen++
+		if seen > int(ht.len) {
+			return fmt.Errorf("order list longer than len=%d (cycle?)", ht.len)
+		}
+	}
+	if len(live) != 0 {
+		return fmt.Errorf("%d live entries are not on the order list", len(live))
+	}
+	if ht.tailLink != link {
+		return fmt.Errorf("tailLink does not point at the final nil link")
+	}
+	return nil
+}
